@@ -3,7 +3,7 @@ import itertools
 import vlib
 
 ID = 'C11'
-LEAN_MODULES = ['TboxModel.C11.Props', 'TboxModel.C11.PropsArena']
+LEAN_MODULES = ['TboxModel.C11.Props', 'TboxModel.C11.PropsArena', 'TboxModel.C11.PropsBackend']
 EXE = 'c11'
 THEOREMS = ['Tbox.C11.C11_gating', 'Tbox.C11.C11_hooks_of_tree', 'Tbox.C11.C11_balanced', 'Tbox.C11.C11_balanced_counts',
             'Tbox.C11.C11_reverse', 'Tbox.C11.C11_reverse_closed', 'Tbox.C11.C11_reverse_explicit',
@@ -13,18 +13,33 @@ THEOREMS = ['Tbox.C11.C11_gating', 'Tbox.C11.C11_hooks_of_tree', 'Tbox.C11.C11_b
             'Tbox.C11.Arena.C11_scripts_gating', 'Tbox.C11.Arena.C11_scripts_balanced', 'Tbox.C11.Arena.C11_scripts_busy_untouched',
             'Tbox.C11.Arena.C11_reentrant_cleanup_counterexample', 'Tbox.C11.Arena.C11_reentrant_cleanup_repaired',
             'Tbox.C11.Arena.C11_reentrant_init_counterexample', 'Tbox.C11.Arena.C11_throwing_hook_counterexample',
+            'Tbox.C11.Arena.C11_script_stop_parent_from_onStart', 'Tbox.C11.Arena.C11_script_add_from_parent_onInit',
+            'Tbox.C11.Arena.C11_script_add_from_sibling_onInit', 'Tbox.C11.Arena.C11_scripts_nesting_counterexample',
             'Tbox.C11.C11_main_is_history', 'Tbox.C11.C11_main_balanced', 'Tbox.C11.C11_main_counterexample_unrepaired', 'Tbox.C11.C11_balanced_counterexample_unrepaired',
             'Tbox.C11.C11_balanced_witness_repaired', 'Tbox.C11.C11_start_counterexample_unrepaired',
-            'Tbox.C11.C11_destroy_only_remark']
+            'Tbox.C11.C11_destroy_only_remark',
+            'Tbox.C11.Backend.C11_backend_balanced', 'Tbox.C11.Backend.C11_backend_closed_after_stop',
+            'Tbox.C11.Backend.C11_backend_start_twice', 'Tbox.C11.Backend.C11_backend_stop_without_start',
+            'Tbox.C11.Backend.C11_backend_restart_after_failure', 'Tbox.C11.Backend.C11_backend_same_as_main',
+            'Tbox.C11.Backend.C11_backend_leak_counterexample', 'Tbox.C11.Backend.C11_backend_leak_repaired',
+            'Tbox.C11.Backend.C11_main_signal_partial', 'Tbox.C11.Backend.C11_main_signal_counterexample',
+            'Tbox.C11.Backend.C11_main_signal_prefix']
 SOURCES = ['modules/main/module.cpp', 'modules/util/variables.cpp'] + vlib.BASE_SOURCES
 FLAVOUR = 'asan'
 BATCH = 400
 TRUSTED = ['model lean/TboxModel/C11/Model.lean is hand-written from modules/main/module.cpp (with patches/C11-01 applied); '
            'tied by differential runs of generated module trees and root-call sequences',
-           'probe modules return a fixed (settable between root calls) result from onInit/onStart; hooks do not re-enter the tree',
+           'probe modules return a fixed (settable between root calls) result from onInit/onStart and run a one-shot script '
+           '(API calls on any module, add(), throw) given by the op file',
+           'Backend.lean (Start()/Stop() of run_in_backend.cpp, stop signal during Main()) is hand-written from the two run_in_*.cpp '
+           'files; tied by process scenarios with the real Main()/Start()/Stop(), ContextImp, Log, Args (ContextImp::start() fails only '
+           'through -Wl,--wrap: its body cannot fail)',
            'module names are "" or "m<id>" (unique): name clashes other than two unnamed siblings are not generated']
-ASSUMPTIONS = ['user hooks do not throw and do not call lifecycle functions of the tree from inside a hook',
-               'children are only driven through the root (module.h: the parent owns the child after add())']
+ASSUMPTIONS = ['user hooks do not throw (C11_throwing_hook_counterexample); hooks that call lifecycle functions of the tree keep gating and '
+               'balance (C11_scripts_*), LIFO nesting is stated for trees driven through the root only',
+               'children are only driven through the root (module.h: the parent owns the child after add())',
+               'a stop signal that arrives while a user hook runs (no handler installed: the process dies) is outside the property\'s '
+               'quantifier; modelled as found (Backend.mainSig), tied by raise(SIGTERM) from probe hooks, not repaired']
 RULE = ('cases = a forest of probe modules built with new/add lines (depth <= 5, fan-out <= 4, required/optional, named/unnamed, '
         'config key present/missing, per-module onInit/onStart results) followed by initialize/start/stop/cleanup/destroy calls on '
         'roots in random (also repeated / out-of-order) order with fault flags changed between calls; non-trivial = the model run '
@@ -302,6 +317,15 @@ SCRIPT_FIXED = [
      'cleanup 0', 'cleanup 0', 'destroy 0'],
     # throwing onStop: state_ stays kRunning, the next cleanup() stops it again
     ['new 0 1 1 1 1', 'new 1 1 1 1 1', 'add 0 1 1', 'hook 1 t x', 'init 0', 'start 0', 'stop 0', 'stop 0', 'cleanup 0', 'destroy 0'],
+    # DESIGN §10 lesson (e), the scripts of C11_script_* / C11_scripts_nesting_counterexample: onStart stops the parent, onStop cleans
+    # up itself and the parent; add() from onInit of the parent-to-be (accepted) and from its onStart (refused: kInited); add() from
+    # a sibling's onInit; a hook cleaning up an elder sibling (balanced, not nested)
+    ['new 0 1 1 1 1', 'new 1 1 1 1 1', 'add 0 1 1', 'hook 1 s ct:0', 'hook 1 t cc:1 cc:0', 'init 0', 'start 0', 'stop 0', 'cleanup 0', 'destroy 0'],
+    ['new 0 1 1 1 1', 'new 1 1 1 1 1', 'new 2 0 0 1 1', 'add 0 1 1', 'hook 0 i a:0:2:1', 'hook 0 s a:0:2:1', 'init 0', 'start 0', 'cleanup 0',
+     'destroy 0'],
+    ['new 0 1 1 1 1', 'new 1 1 1 1 1', 'new 2 0 0 1 1', 'add 0 1 1', 'hook 1 i a:0:2:0', 'init 0', 'add 0 2 1', 'cleanup 0', 'destroy 0'],
+    ['new 0 1 1 1 1', 'new 1 1 1 1 1', 'new 2 1 1 1 1', 'new 3 1 1 1 1', 'add 0 1 1', 'add 0 2 1', 'add 0 3 1', 'hook 3 i cc:1', 'init 0', 'cleanup 0',
+     'destroy 0'],
     # malformed scripts: both sides answer bad-op
     ['new 0 1 1 1 1', 'hook 0 i cz:0', 'hook 0 q ci:0', 'hook 5 i ci:0', 'hook 0 i a:0:1', 'hook 0 i ci:x', 'hook 0 i', 'init 0', 'cleanup 0', 'destroy 0'],
 ]
@@ -481,27 +505,34 @@ def gen(rng, tier):
 
 
 def extra_coverage():
+    cov = {'process_scenarios': {'run': MAIN['run'], 'agree': MAIN['ok'], 'paths': dict(MAIN['paths']),
+                                 'what': 'real tbox::main::Main() (run_in_frontend.cpp) and tbox::main::Start()/Stop() '
+                                         '(run_in_backend.cpp) with ContextImp, Log, Args and an Apps tree of probe modules, one '
+                                         'process per scenario; hook traces and return values compared with mainTrace / '
+                                         'Backend.mainSig / Backend.startB / Backend.stopB; faults: -n (Args::parse), pid file '
+                                         'that cannot be created, thread_pool.min not a number (ContextImp::initialize), '
+                                         'ContextImp::start() through -Wl,--wrap; stop signal = real raise(SIGTERM) from inside '
+                                         'a probe hook'}}
     if not EXH['trees']:
-        return {}
-    return {'main_scenarios': {'run': MAIN['run'], 'agree': MAIN['ok'], 'paths': dict(MAIN['paths']),
-                               'what': 'real tbox::main::Main() (run_in_frontend.cpp, ContextImp, Log, Args) with an Apps tree of probe '
-                                       'modules; hook trace compared with the model mainTrace; ContextImp::start() cannot fail in the '
-                                       'code, that branch is model-only; run_in_backend.cpp has the same sequencing and is not executed'},
-'exhaustive': True,
+        return cov
+    cov.update({'exhaustive': True,
             'exhaustive_scope': 'every ordered tree shape x required/optional flag of every child x {ok, onInit fails, onStart fails} '
                                 'per module, x every sequence of root calls over {initialize,start,stop,cleanup} of the given length '
                                 '(all prefixes compared too), each followed by cleanup: ' +
                                 '; '.join('%d..%d modules with sequences of length %d' % sc for sc in EXH_SCOPES) +
                                 ' (%d trees, %d tree/sequence combinations, %d op lines in %d chunks, %d diverging); '
                                 'all modules named with config present; run by plugin.run_exhaustive() outside the sampled cases'
-                                % (EXH['trees'], EXH['combos'], EXH['lines'], EXH['chunks'], len(EXH['bad']))}
+                                % (EXH['trees'], EXH['combos'], EXH['lines'], EXH['chunks'], len(EXH['bad']))})
+    return cov
 
 
-# ---- Main() scenarios (thorough tier): the real tbox::main::Main() of run_in_frontend.cpp with an Apps tree of
-# ---- probe modules, compared with the model's `mainTrace` (driver op `main <ctxInit> <ctxStart> <root>`)
+# ---- process-level scenarios: the real tbox::main::Main() (run_in_frontend.cpp) and tbox::main::Start()/Stop()
+# ---- (run_in_backend.cpp) with an Apps tree of probe modules, one process per scenario, compared with the model
+# ---- (`mainTrace` / `Backend.mainSig` / `Backend.startB` / `Backend.stopB`; driver ops `main`, `raise`, `bstart`, `bstop`)
 
 MAIN_MODULES = ['base', 'util', 'event', 'eventx', 'log', 'terminal', 'network', 'trace', 'coroutine', 'main']
 MAIN = {'run': 0, 'ok': 0, 'paths': {}}
+WRAP = ['-Wl,--wrap=_ZN4tbox4main10ContextImp5startEv']     # fault injection into ContextImp::start() (it ends in `return true`)
 
 
 def main_sources():
@@ -517,8 +548,8 @@ def main_sources():
     return sorted(srcs)
 
 
-def gen_main_scenario(rng, k):
-    n = rng.choice([2, 3, 4, 5, 7])
+def scenario_tree(rng, all_ok=False, sizes=(2, 3, 4, 5, 7)):
+    n = rng.choice(sizes)
     lines, root, ids = gen_tree(rng, n, p_fail=rng.choice([0.0, 0.15, 0.3]))
     out = []
     for l in lines:
@@ -527,55 +558,127 @@ def gen_main_scenario(rng, k):
             w[3] = '1'                                   # config keys are created by fillDefaultConfig()
             if int(w[1]) == root:
                 w[2], w[4], w[5] = '0', '1', '1'          # the Apps root is a base Module("")
+            elif all_ok:
+                w[4], w[5] = '1', '1'
         out.append(' '.join(w))
-    if k % 5 == 1:                                        # everything fine: the run / stop-signal path
-        out = [' '.join(l.split()[:4] + ['1', '1']) if l.startswith('new') else l for l in out]
-    out.append('main %d 1 %d' % (0 if k % 7 == 3 else 1, root))
+    return out, root, ids
+
+
+CTX_ARGS = ['telnetd.bind="256.0.0.1:80"', 'telnetd.bind="127.0.0.1:0"', 'tcp_rpc.bind="127.0.0.1:0"', 'tcp_rpc.bind="/proc/C11-no-such-dir/s"',
+            'thread_pool.max=3', 'loop.water_line.run_next_queue_size=5']
+
+
+def ctx_args(rng):
+    """what the context uses, usable or not: ContextImp swallows these failures, the hooks must not notice"""
+    return ['arg ' + a for a in rng.sample(CTX_ARGS, rng.choice([0, 0, 1, 2]))]
+
+
+def gen_main_scenario(rng, k):
+    out, root, ids = scenario_tree(rng, all_ok=(k % 5 == 1))   # k%5==1: everything fine: the run / stop-signal path
+    others = [i for i in ids if i != root]
+    out += ctx_args(rng)
+    if k % 3 == 0 and others:                             # a stop signal raised from inside a hook
+        out.append('raise %s %d' % (rng.choice('iisstc'), rng.choice(others)))
+    out.append('main %d %d %d' % (0 if k % 7 == 3 else 1, 0 if k % 4 == 2 else 1, root))
     return out
 
 
-def run_main_scenarios(seed, count, extra=()):
-    """returns list of (ops, impl_line, model_line) that disagree"""
+def gen_backend_scenario(rng, k):
+    """a history of Start()/Stop() calls: failures at every stage, Start twice, Stop without Start, Start after a failure"""
+    out, root, ids = scenario_tree(rng, all_ok=(k % 3 == 0), sizes=(2, 3, 4, 6))
+    others = [i for i in ids if i != root]
+    out += ctx_args(rng)
+    for _ in range(rng.choice([1, 2, 3, 4, 6])):
+        r = rng.random()
+        if r < 0.55:
+            f = [1, 1, 1, 1]
+            if rng.random() < 0.45:
+                f[rng.randrange(4)] = 0
+            out.append('bstart %d %d %d %d %d' % (f[0], f[1], f[2], f[3], root))
+        elif r < 0.8:
+            out.append('bstop %d' % root)
+        elif others:
+            out.append('set %d 1 %s %s' % (rng.choice(others), b(rng.random() < 0.7), b(rng.random() < 0.7)))
+    out.append('bstop %d' % root)                         # never leave the loop thread running
+    return out
+
+
+def _impl_lines(rc, so, se, frontend):
+    """observable lines of one scenario process: its P/M lines; a process killed by SIGTERM inside Main() is
+    reported as `P ret=K tr=<the hooks it had written>`; any other abnormal end as CRASH"""
+    lines, ev = [], []
+    for l in so.splitlines():
+        if l.startswith('E '):
+            ev.append(l[2:])
+        elif l.startswith('P ') or l.startswith('M ') or l == 'bad-op':
+            lines.append(l); ev = []
+    if rc == -15 and frontend:
+        lines.append('P ret=K tr=%s st=-' % (','.join(ev) or '-'))
+    elif rc != 0:
+        lines.append('CRASH ' + vlib.classify_crash(rc, se))
+    return lines
+
+
+def _model_lines(model, frontend):
+    ml = [l for l in model if not l.startswith('B ')]
+    if frontend:                                           # the answer to the final `main` line: P, then M unless the process was killed
+        k = max([i for i, l in enumerate(ml) if l.startswith('P ')] or [0])
+        return ml[k:] if ml else ['<none>']
+    return [l for l in ml if l.startswith(('P bret=', 'P bcrash', 'P dead', 'M runtime=')) or l == 'bad-op']
+
+
+def run_main_scenarios(seed, count, extra=(), backend=None):
+    """returns list of (ops, impl_line, model_line, kind) that disagree; kind 'P' or 'M'"""
     import os, random, tempfile
     from concurrent.futures import ThreadPoolExecutor
     exe, hlog = vlib.build_harness(ID, main_sources(), os.path.join(vlib.VERIF, 'props', ID, 'main_scenario.cpp'), 'asan',
-                                   out_name='mainscn')
+                                   libs=WRAP, out_name='mainscn')
     if exe is None:
-        return [(['<build of props/C11/main_scenario.cpp>'], hlog[-1500:], 'builds')]
+        return [(['<build of props/C11/main_scenario.cpp>'], hlog[-1500:], 'builds', 'P')]
     rng = random.Random('%s:main:%d' % (ID, seed))
-    cases = [list(e) for e in extra] + [gen_main_scenario(rng, k) for k in range(count)]
-    # keep only scenarios where every module hangs below the Apps root (an add refused for two unnamed siblings leaves a stray root)
-    model = vlib.run_driver_cases(EXE, dict(enumerate(cases)))
+    # corpus/C11/process/*.ops: replays of the process-level defects (run first, like corpus/C11/*.ops in the standard pass)
+    import glob
+    corp = []
+    if count or backend:
+        for f in sorted(glob.glob(os.path.join(vlib.VERIF, 'corpus', ID, 'process', '*.ops'))):
+            corp.append([l.strip() for l in open(f) if l.strip() and not l.startswith('#') and not l.startswith('case ')])
+    cases = corp + [list(e) for e in extra] + [gen_main_scenario(rng, k) for k in range(count)]
+    cases += [gen_backend_scenario(rng, k) for k in range(count if backend is None else backend)]
+    # C11_DRIVER_ARGS='nofx' selects the model of run_in_backend.cpp before patches/C11-06 (used only to validate the tie
+    # against a tree without that commit)
+    model = vlib.run_driver_cases(EXE, dict(enumerate(cases)), argv=tuple(os.environ.get('C11_DRIVER_ARGS', '').split()))
     tmpd = tempfile.mkdtemp(prefix='C11-main-')
 
     def one(i):
         path = os.path.join(tmpd, '%d.ops' % i)
         with open(path, 'w') as fh:
             fh.write('\n'.join(cases[i]) + '\n')
-        rc, so, se = vlib.run_proc([exe], '', 60, env={'C11_SCENARIO': path})
-        lines = [l for l in so.splitlines() if l.startswith('P ') or l == 'bad-op']
-        if rc != 0:
-            lines.append('CRASH ' + vlib.classify_crash(rc, se))
-        return lines
+        rc, so, se = vlib.run_proc([exe], '', 120, env={'C11_SCENARIO': path})
+        return _impl_lines(rc, so, se, cases[i][-1].startswith('main '))
     with ThreadPoolExecutor(8) as ex:
         impl = list(ex.map(one, range(len(cases))))
     import shutil
     shutil.rmtree(tmpd, ignore_errors=True)
     bad = []
     for i, ops in enumerate(cases):
-        ml = [l for l in model.get(i, []) if not l.startswith('B ')]
-        tags = [l for l in model.get(i, []) if l.startswith('B main-')]
-        m_last = ml[-1] if ml else '<none>'
-        stray = ',' in m_last.split('st=')[-1] or (m_last.split('st=')[-1].strip() not in ('-',))
-        if impl[i] == ['bad-op'] and (stray or m_last == 'bad-op'):
-            continue                                    # not a scenario (stray root): skipped on both sides
+        frontend = ops[-1].startswith('main ')
+        ml = _model_lines(model.get(i, []), frontend)
+        tags = [l for l in model.get(i, []) if l.startswith(('B main-', 'B bstart-', 'B bstop-'))]
+        # keep only scenarios where every module hangs below the Apps root (an add refused for two unnamed siblings leaves
+        # a stray root): the harness answers bad-op; the model shows the stray root in st= of its `add` answers
+        if impl[i][:1] == ['bad-op']:
+            addl = [l for l in model.get(i, []) if l.startswith('P ret=0 ')]
+            if addl or 'bad-op' in ml:
+                continue
         MAIN['run'] += 1
         for t in tags:
             MAIN['paths'][t[2:]] = MAIN['paths'].get(t[2:], 0) + 1
-        if impl[i] == [m_last]:
+        if impl[i] == ml:
             MAIN['ok'] += 1
         else:
-            bad.append((ops, ' | '.join(impl[i]) or '<no output>', m_last))
+            d = vlib.first_diff(impl[i], ml)
+            kind = d[3] if d and len(d) > 3 else 'P'
+            bad.append((ops, ' | '.join(impl[i]) or '<no output>', ' | '.join(ml), kind))
     return bad
 
 
@@ -584,29 +687,40 @@ def check(tier, seed, replay):
     t0 = time.time()
     me = types.SimpleNamespace(**{k: v for k, v in globals().items() if k != 'check'})
     MAIN.update({'run': 0, 'ok': 0, 'paths': {}})
+    EXH.update({'trees': 0, 'combos': 0, 'lines': 0, 'chunks': 0, 'bad': []})
     bad = []
     if replay:
         ops = [l.strip() for l in open(replay) if l.strip() and not l.startswith('#') and not l.startswith('case ')]
-        if ops and ops[-1].startswith('main '):
-            bad = run_main_scenarios(seed, 0, extra=[ops])
-            for (o, il, ml) in bad:
-                print('VIOLATION property=%s replay=%s' % (ID, replay), flush=True)
-                vlib.log('  -> Main() scenario: impl=%r expected=%r' % (il, ml))
+        if ops and (ops[-1].startswith('main ') or any(o.startswith(('bstart ', 'bstop ')) for o in ops)):
+            ok, _ = vlib.lean_build([EXE])
+            bad = run_main_scenarios(seed, 0, extra=[ops], backend=0)
+            for (o, il, ml, kind) in bad:
+                print('VIOLATION property=%s replay=%s%s' % (ID, replay, '' if kind == 'P' else ' no-failing-input-found'), flush=True)
+                vlib.log('  -> process scenario: impl=%r expected=%r' % (il, ml))
             return 1 if bad else 0
-    elif tier == 'thorough':
+    else:
         ok, _ = vlib.lean_build([EXE])
-        bad = run_main_scenarios(seed, 60, extra=MAIN_FIXED)
-        run_exhaustive()
-        bad = [(o, il, ml, 'exhaustive enumeration') for (o, il, ml) in EXH['bad']] + [(o, il, ml, 'Main() scenario') for (o, il, ml) in bad]
+        if tier == 'thorough':
+            bad = run_main_scenarios(seed, 60, extra=MAIN_FIXED)
+            run_exhaustive()
+        else:
+            bad = run_main_scenarios(seed, 12, extra=MAIN_FIXED)
+        bad = [(o, il, ml, 'P', 'exhaustive enumeration') for (o, il, ml) in EXH['bad']] + \
+              [(o, il, ml, kind, 'process scenario') for (o, il, ml, kind) in bad]
     rc = vlib.standard_check(me, tier, seed, replay)
-    for (o, il, ml, what) in bad[:4]:
-        fp = ('main-' if o[-1].startswith('main ') else 'exh-') + hashlib.sha1('\n'.join(o).encode()).hexdigest()[:10]
+    # report at most four, one of each class first (exhaustive / Main() / Start()-Stop())
+    cls = lambda x: 0 if x[4].startswith('exh') else (1 if x[0][-1].startswith('main ') else 2)
+    firsts = [next(x for x in bad if cls(x) == c) for c in sorted(set(cls(x) for x in bad))]
+    bad = firsts + [x for x in bad if x not in firsts]
+    for (o, il, ml, kind, what) in bad[:4]:
+        proc = o[-1].startswith('main ') or any(x.startswith(('bstart ', 'bstop ')) for x in o)
+        fp = ('main-' if proc else 'exh-') + hashlib.sha1('\n'.join(o).encode()).hexdigest()[:10]
         path = vlib.write_replay(ID, fp + '.ops', vlib.case_text(0, o) + '# %s\n# implementation: %s\n# model/spec   : %s\n'
                                  % (what, il, ml))
-        print('VIOLATION property=%s replay=%s' % (ID, path), flush=True)
-        vlib.log('  -> %s: impl=%r expected=%r' % (what, il[:200], ml[:200]))
-    if tier == 'thorough' and not replay:
-        # the evidence written by standard_check() does not know about the two extra passes: add them
+        print('VIOLATION property=%s replay=%s%s' % (ID, path, '' if kind == 'P' else ' no-failing-input-found'), flush=True)
+        vlib.log('  -> %s: impl=%r expected=%r' % (what, il[:300], ml[:300]))
+    if not replay:
+        # the evidence written by standard_check() does not know about the extra passes: add them
         evp = os.path.join(vlib.VERIF, 'evidence', ID + '.json')
         ev = json.load(open(evp))
         ev['violations'] = ev.get('violations', 0) + min(len(bad), 4)
@@ -625,6 +739,29 @@ MAIN_FIXED = [
     ['new 0 0 1 1 1', 'new 1 1 1 1 1', 'new 2 1 1 1 0', 'add 0 1 1', 'add 0 2 1', 'main 1 1 0'],
     ['new 0 0 1 1 1', 'new 1 1 1 1 1', 'new 2 0 1 1 1', 'new 3 1 1 0 1', 'add 0 1 1', 'add 0 2 0', 'add 2 3 1', 'main 1 1 0'],
     ['new 0 0 1 1 1', 'new 1 1 1 1 1', 'add 0 1 1', 'main 0 1 0'],
+    # ContextImp::start() answers false (linked through --wrap): apps are cleaned up, never started
+    ['new 0 0 1 1 1', 'new 1 1 1 1 1', 'new 2 1 1 1 1', 'add 0 1 1', 'add 1 2 1', 'main 1 0 0'],
+    # a stop signal raised from inside a hook (as the code is: default disposition, the process is killed there, `P ret=K` with the
+    # hooks run so far): onInit / onStart of a module during start-up (run path), onStart during a start-up that fails afterwards,
+    # the roll-back onStop of a failing start-up, onStop of the stop sequence, onCleanup
+    ['new 0 0 1 1 1', 'new 1 1 1 1 1', 'new 2 1 1 1 1', 'add 0 1 1', 'add 0 2 1', 'raise i 2', 'main 1 1 0'],
+    ['new 0 0 1 1 1', 'new 1 1 1 1 1', 'new 2 1 1 1 1', 'add 0 1 1', 'add 0 2 1', 'raise s 1', 'main 1 1 0'],
+    ['new 0 0 1 1 1', 'new 1 1 1 1 1', 'new 2 1 1 1 0', 'add 0 1 1', 'add 0 2 1', 'raise s 1', 'main 1 1 0'],
+    ['new 0 0 1 1 1', 'new 1 1 1 1 1', 'new 2 1 1 1 0', 'add 0 1 1', 'add 0 2 1', 'raise t 1', 'main 1 1 0'],
+    ['new 0 0 1 1 1', 'new 1 1 1 1 1', 'new 2 1 1 1 1', 'add 0 1 1', 'add 0 2 1', 'raise t 2', 'main 1 1 0'],
+    ['new 0 0 1 1 1', 'new 1 1 1 1 1', 'new 2 1 1 1 1', 'add 0 1 1', 'add 0 2 1', 'raise c 1', 'main 1 1 0'],
+    ['new 0 0 1 1 1', 'new 1 1 1 1 1', 'new 2 1 1 0 1', 'add 0 1 1', 'add 0 2 1', 'raise c 1', 'main 1 1 0'],
+    # run_in_backend.cpp: Stop without Start, Start, Start again, Stop, Stop again
+    ['new 0 0 1 1 1', 'new 1 1 1 1 1', 'new 2 1 1 1 1', 'add 0 1 1', 'add 1 2 1', 'bstop 0', 'bstart 1 1 1 1 0', 'bstart 1 1 1 1 0', 'bstop 0', 'bstop 0'],
+    # Start failing at each stage (arguments, pid file, context initialise, apps initialise, context start, apps start),
+    # each followed by a Start that works, and Stop
+    ['new 0 0 1 1 1', 'new 1 1 1 1 1', 'add 0 1 1', 'bstart 0 1 1 1 0', 'bstart 1 1 1 1 0', 'bstop 0'],
+    ['new 0 0 1 1 1', 'new 1 1 1 1 1', 'add 0 1 1', 'bstart 1 0 1 1 0', 'bstart 1 1 1 1 0', 'bstop 0'],
+    ['new 0 0 1 1 1', 'new 1 1 1 1 1', 'add 0 1 1', 'bstart 1 1 0 1 0', 'bstart 1 1 1 1 0', 'bstop 0'],
+    ['new 0 0 1 1 1', 'new 1 1 1 1 1', 'new 2 1 1 0 1', 'add 0 1 1', 'add 0 2 1', 'bstart 1 1 1 1 0', 'set 2 1 1 1', 'bstart 1 1 1 1 0', 'bstop 0'],
+    ['new 0 0 1 1 1', 'new 1 1 1 1 1', 'new 2 1 1 1 1', 'add 0 1 1', 'add 0 2 1', 'bstart 1 1 1 0 0', 'bstart 1 1 1 1 0', 'bstop 0'],
+    ['new 0 0 1 1 1', 'new 1 1 1 1 1', 'new 2 1 1 1 0', 'add 0 1 1', 'add 0 2 1', 'bstart 1 1 1 1 0', 'set 2 1 1 1', 'bstart 1 1 1 1 0', 'bstop 0',
+     'bstart 0 0 0 0 0', 'bstop 0'],
 ]
 
 
@@ -647,6 +784,7 @@ LEVEL_TEXT = ('Lean 4 theorems over a hand-written model of Module (tree with pe
               "module's lifecycle automaton, is LIFO-nested, and is balanced after cleanup+destroy; the model is tied to module.cpp on every "
               'run by differential execution of generated trees and call sequences (ASan+UBSan build of the working tree)')
 LEVEL_NOTE = ('trusted: Lean kernel, hand-written model + differential tie (coverage bounded by the generator, measured in evidence); '
-              'hooks that re-enter the tree or throw are not modelled; Main() sequencing is a small model (mainTrace) tied by scenario runs of the real Main() in the thorough tier')
+              'throwing hooks are outside the property; Main()/Start()/Stop() sequencing are small models (mainTrace, Backend.startB/stopB/mainSig) tied by '
+              'process scenarios of the real entry points in both tiers')
 TECHNIQUE = 'Lean 4 structural-induction proofs over a module-tree model + model/implementation correspondence check'
 DESIGN_REF = 'DESIGN.md §6 C11, §7 row 5'
